@@ -636,3 +636,54 @@ def install(sess):
         if not _vals_eq(got[0], src[0]): return f"temporal results keep their instants when re-typed [{type(orig_type).__name__}]"
         if got[1].split(",")[0].rstrip("]") != src[1].split(",")[0].rstrip("]"): return f"temporal results keep their time unit when re-typed [{type(orig_type).__name__}]: {got[1]} vs {src[1]}"
     sess.wrap("groupby_lib.groupby.core", "GroupBy._convert_arr_to_pandas_series", ensures=post_to_series, snapshot=lambda self, arr, orig_type, index: logical(arr) if len(arr) <= SMALL and arr.dtype.kind in "mM" else None)
+
+
+# ----------------------------------------------------------------------------- S / F tiers: the null convention every kernel proof relies on
+def static_obligations(repo, tier):
+    """S: numba's overload of is_null (util.jit_is_null) returns its k-th nested body exactly under the test for the k-th numba type class (Float -> #0, Integer -> #1,
+    Boolean -> #2): the bodies themselves are under contract in the P tier (contracts/kernels.py, records jit_is_null.is_null#k), the engine resolves is_null(x) by the kind
+    of x accordingly.  S: MIN_INT is defined as the minimum of int64.  F: _null_value_for_numpy_type over every NumPy dtype the library accepts (complete enumeration of the
+    real function): NaN for floats, NaT for temporal types, the minimum for signed integers, False for bool - and for int64 (what temporal values run as) exactly MIN_INT."""
+    import ast, os, sys
+    rows = []; path = os.path.join(repo, "groupby_lib", "util.py"); tree = ast.parse(open(path).read())
+    fn = next((n for n in tree.body if isinstance(n, ast.FunctionDef) and n.name == "jit_is_null"), None)
+    want = [("Float", 0), ("Integer", 1), ("Boolean", 2)]; got = []; detail = ""
+    if fn is None: detail = "jit_is_null not found"
+    else:
+        defs = sorted([n for n in ast.walk(fn) if isinstance(n, ast.FunctionDef) and n is not fn], key=lambda n: (n.lineno, n.col_offset))
+        def branches(stmts):
+            for s_ in stmts:
+                if isinstance(s_, ast.If):
+                    classes = sorted({x.attr for x in ast.walk(s_.test) if isinstance(x, ast.Attribute) and isinstance(x.value, ast.Attribute) and x.value.attr == "types"})
+                    inner = [d for d in s_.body if isinstance(d, ast.FunctionDef)]; rets = [r for r in s_.body if isinstance(r, ast.Return)]
+                    if len(inner) == 1 and len(rets) == 1 and isinstance(rets[0].value, ast.Name) and rets[0].value.id == inner[0].name: got.append((classes, defs.index(inner[0])))
+                    else: got.append((classes, None))
+                    yield from branches(s_.orelse)
+                elif not (isinstance(s_, ast.Expr) and isinstance(s_.value, ast.Constant)): got.append((["<other statement>"], None))
+        list(branches(fn.body))
+        dec_ok = any(isinstance(d, ast.Call) and getattr(d.func, "id", getattr(d.func, "attr", "")) == "overload" and d.args and ast.unparse(d.args[0]) == "is_null" for d in fn.decorator_list)
+        detail = f"branches {got}, registered as overload of is_null: {dec_ok}"
+    ok = fn is not None and dec_ok and [(c, k) for c, k in got] == [([c], k) for c, k in want]
+    rows.append({"name": "util.py::jit_is_null::dispatch-by-numba-type", "tier": "S", "ok": bool(ok), "exhaustive": True, "detail": detail, "case": None if ok else {"branches": str(got)}})
+    asg = next((n for n in tree.body if isinstance(n, ast.Assign) and any(isinstance(t, ast.Name) and t.id == "MIN_INT" for t in n.targets)), None)
+    ok2 = asg is not None and ast.unparse(asg.value).replace(" ", "") == "np.iinfo(np.int64).min"
+    rows.append({"name": "util.py::MIN_INT::is-int64-minimum", "tier": "S", "ok": bool(ok2), "exhaustive": True, "detail": ast.unparse(asg) if asg is not None else "not found", "case": None if ok2 else {"definition": ast.unparse(asg) if asg is not None else None}})
+    # F: the real function on every dtype (complete)
+    if repo not in sys.path: sys.path.insert(0, repo)
+    import importlib, numpy as np
+    try:
+        util = importlib.import_module("groupby_lib.util"); bad = []; n = 0
+        for dt in ["float16", "float32", "float64", "int8", "int16", "int32", "int64", "uint8", "uint16", "uint32", "uint64", "bool", "m8[ns]", "m8[us]", "m8[ms]", "m8[s]", "M8[ns]", "M8[us]", "M8[ms]", "M8[s]"]:
+            d = np.dtype(dt); n += 1; v = util._null_value_for_numpy_type(d)
+            exp_ok = (np.isnan(v) if d.kind == "f" else (np.isnat(v) if d.kind in "mM" else (v == np.iinfo(d).min if d.kind == "i" else (v == np.iinfo(d).max if d.kind == "u" else v is False or v == False))))
+            if d == np.dtype("int64") and int(v) != -2 ** 63: exp_ok = False
+            if d.kind in "mM" and int(np.asarray(v).view("int64")) != -2 ** 63: exp_ok = False
+            if not exp_ok: bad.append((dt, repr(v)))
+        for dt in ["O", "U3", "c16"]:
+            n += 1
+            try: util._null_value_for_numpy_type(np.dtype(dt)); bad.append((dt, "no TypeError"))
+            except TypeError: pass
+        rows.append({"name": "util.py::_null_value_for_numpy_type::null-per-dtype", "tier": "F", "ok": not bad, "exhaustive": True, "cases": n, "detail": f"{n} dtypes; wrong: {bad}", "case": {"dtype": bad[0][0], "got": bad[0][1]} if bad else None})
+    except Exception as ex:
+        rows.append({"name": "util.py::_null_value_for_numpy_type::null-per-dtype", "tier": "F", "ok": False, "detail": f"{type(ex).__name__}: {ex}", "case": {"error": str(ex)[:200]}})
+    return rows
